@@ -205,6 +205,10 @@ struct Harness {
 };
 extern const Harness HARNESS;  // defined by each harness TU
 
+// Enumerators announce the case they are about to evaluate, so that a crash (sanitizer abort, guard-page fault) inside
+// an enumeration leaves the case behind like a crash in the generated search does.
+void note_case(const Fields &f);
+
 // engine entry (rapidcheck or libFuzzer)
 int engine_main(int argc, char **argv);
 
